@@ -686,6 +686,8 @@ func Input(l *InputSharedVars, g *GlobalVarsMain, hPath *HFilePath, driConfig *C
 							g.EINTE[i] = g.EINTE[i-1] + 1
 						}
 					}
+					// the slot after the last kept event may still hold a dropped (pre-start) date
+					g.EINTE[NRTIL+1] = 0
 				}
 				residi(g, hPath)
 				if !g.AUTOFERT {
